@@ -242,6 +242,37 @@ fn selectors(ch: &mut Choices, case: &mut Case) -> Result<(), String> {
     Ok(())
 }
 
+/// Generated near misses of valid codes: anything but exactly a listed code must be rejected.
+fn near_codes(ch: &mut Choices, case: &mut Case) -> Result<(), String> {
+    let codes: BTreeSet<&str> = Country::ALL.iter().map(|c| c.iso_code()).collect();
+    let country = Country::ALL[ch.draw(Country::ALL.len() as u32) as usize];
+    let code = country.iso_code();
+    let extra = ch.pick(&["-", "_", " ", ".", "/", ":", ";", ",", "\0", "\n", "\t", "1", "A", "a", "é", "-TX", "-75", "_FR", " FR", "\u{200b}", "\u{0301}"]);
+    let other = Country::ALL[ch.draw(Country::ALL.len() as u32) as usize].iso_code();
+    let candidate = match ch.draw(10) {
+        0 => format!("{code}{extra}"),
+        1 => format!("{extra}{code}"),
+        2 => format!("{}{extra}{}", &code[..1], &code[1..]),
+        3 => format!("{code}{other}"),
+        4 => format!("{code}-{other}"),
+        5 => code.to_lowercase(),
+        6 => format!("{}{}", &code[..1], code[1..].to_lowercase()),
+        7 => country.name().to_string(),
+        8 => format!("{code}{}", ch.pick(&["-", "--", "-X", "-XYZ-1", "- "])),
+        _ => code.chars().rev().collect(),
+    };
+    case.key = format!("{candidate:?}.parse::<Country>()");
+    let expected = codes.contains(candidate.as_str());
+    case.nontrivial = !expected;
+    let got = guard(|| candidate.parse::<Country>()).map_err(|p| format!("parsing {candidate:?} panicked: {p}"))?;
+    match (got, expected) {
+        (Ok(c), false) => Err(format!("{candidate:?} is not a listed ISO code but parses as {c:?}")),
+        (Err(_), true) => Err(format!("{candidate:?} is a listed ISO code but is rejected")),
+        (Ok(c), true) if c.iso_code() != candidate => Err(format!("{candidate:?} parses as {c:?}")),
+        _ => Ok(()),
+    }
+}
+
 fn calendars_text(text: &str, case: &mut Case) -> Result<(), String> {
     case.key = text.to_string();
     let mut parts = text.split_whitespace();
@@ -287,6 +318,15 @@ pub fn property() -> Property {
                 cases_quick: 30_000,
                 cases_thorough: 400_000,
                 max_choices: 40,
+            },
+            SubCheck {
+                name: "near_codes",
+                rule: "generated near misses of every valid code (separator / digit / letter / control or combining character appended, prepended or inserted; subdivision-like suffixes `-TX`; two codes joined; lower and mixed case; the country's name; reversed code): accepted iff the string is exactly a listed code, and then as that country; non-trivial = a string that must be rejected",
+                f: near_codes,
+                text_f: None,
+                cases_quick: 20_000,
+                cases_thorough: 200_000,
+                max_choices: 12,
             },
             text_sub("calendars_text", calendars_text),
             text_sub("codes_text", codes_text),
